@@ -179,7 +179,7 @@ def run(res, tier, seed, shard, nshards):
             else:
                 declared_pairs(res, W, rng, job[1])
 
-    with H.ambient((seed, shard, "C17"), res, dims=("multithread", "tls", "dispatcher", "high_fd")):
+    with H.ambient((seed, shard, "C17"), res, dims=("multithread", "tls", "dispatcher", "high_fd", "warn_error", "thread_hop", "truthy")):
         H.in_sim(scen, watchdog=3000)
     W.enableTrace(False)
 
